@@ -44,7 +44,7 @@ BOUNDS = {
               "stream_bytes": "0..6 arbitrary 7-bit bytes", "duplex": "<= 3 transmissions, <= 1 notification before/after each ack, <= 2 in total"},
     "thorough": {"payload_chars": "0..6", "chunkings": "all", "corruption": "as quick, payload <= 4 (checksum digit) / <= 3 (data char)",
                  "retry_budget": "1..10 symbolic, and the default", "ack_sequence": "every sequence over {+,-,timeout} up to budget+2",
-                 "stream_bytes": "0..8 arbitrary 7-bit bytes", "duplex": "<= 3 transmissions, <= 2 notifications before/after each ack, <= 3 in total"},
+                 "stream_bytes": "0..7 arbitrary 7-bit bytes", "duplex": "<= 3 transmissions, <= 2 notifications before/after each ack, <= 3 in total"},
 }
 OUTSIDE = [
     "real threads: the receiver thread (transport.recv_thread) is run synchronously inside the sender's send(); "
@@ -64,7 +64,7 @@ ASSUMPTIONS = [
     "logging is disabled while the real code runs (it has no effect on the protocol)",
 ]
 SHIMS_USED = ["isinstance", "bytes", "int", "ord", "hex", "bool"]
-JOB_TIMEOUT = {"quick": 280, "thorough": 1700}
+JOB_TIMEOUT = {"quick": 900, "thorough": 3000}   # safety net only (shared machine); idle wall times are far below
 
 RSP = "ppci.binutils.dbg.gdb.rsp"
 TRANSPORT = "ppci.binutils.dbg.gdb.transport"
@@ -437,19 +437,18 @@ class RecQueue(SlotQueue):
 class StreamHarness(RspHarness):
     """arbitrary 7-bit byte stream into the receiver vs. the reference receiver"""
 
-    def __init__(self, n, first=None):
-        self.n, self.first = n, first
-        self.name = f"rsp.stream[n={n},first={first}]"
-        self.params = dict(n=n, first=first)
+    def __init__(self, n, first=""):
+        # first: shape split, class of the leading bytes: '$' | 'a' (an ack character) | 'o' (anything else)
+        self.n, self.first = n, first or ""
+        self.name = f"rsp.stream[n={n},first={self.first or '-'}]"
+        self.params = dict(n=n, first=self.first)
 
     def inputs(self, mk):
         s = [mk.int(f"s{i}", 0, 127) for i in range(self.n)]
-        if self.first is not None and self.n:
-            # shape split: class of the first byte
-            c = s[0]
-            if self.first == "$":
+        for c, cls in zip(s, self.first):
+            if cls == "$":
                 mk.assume(c == spec.DOLLAR)
-            elif self.first == "ack":
+            elif cls == "a":
                 mk.assume(sym_or(c == spec.PLUS, c == spec.MINUS))
             else:
                 mk.assume(sym_not(sym_or(c == spec.DOLLAR, c == spec.PLUS, c == spec.MINUS)))
@@ -578,7 +577,7 @@ def mk_ack(rmax=10, default=False):
     return AckHarness(rmax, default)
 
 
-def mk_stream(n, first=None):
+def mk_stream(n, first=""):
     return StreamHarness(n, first)
 
 
@@ -598,11 +597,12 @@ def _class_splits(n, depth):
 
 
 def jobs(tier, seed):
+    import itertools
     quick = tier == "quick"
     js = [("mk_intmodel", {})]
     nmax = 4 if quick else 6
     for n in range(nmax + 1):
-        depth = 0 if n <= 2 else (1 if n == 3 else (2 if n <= 5 else 3))
+        depth = 0 if n <= 2 else (2 if n <= 5 else 3)
         for cl in _class_splits(n, depth):
             js.append(("mk_e2e", dict(n=n, classes=cl)))
     for n in range((2 if quick else 4) + 1):
@@ -613,12 +613,10 @@ def jobs(tier, seed):
             js.append(("mk_e2e", dict(n=n, classes=cl, corrupt="data")))
     js.append(("mk_ack", dict(rmax=10)))
     js.append(("mk_ack", dict(default=True)))
-    for n in range((6 if quick else 8) + 1):
-        if n <= 4:
-            js.append(("mk_stream", dict(n=n)))
-        else:
-            for f in ("$", "ack", "other"):
-                js.append(("mk_stream", dict(n=n, first=f)))
+    for n in range((6 if quick else 7) + 1):
+        depth = 0 if n <= 4 else (1 if n <= 6 else 2)
+        for t in itertools.product("$ao", repeat=depth):
+            js.append(("mk_stream", dict(n=n, first="".join(t))))
     import itertools
     m, total = (1, 2) if quick else (2, 3)
     per_tx = [(a, b) for a in range(m + 1) for b in range(m + 1)]
